@@ -223,6 +223,40 @@ def fixed_coro_shapes():
     return shapes
 
 
+def coro_call_shapes():
+    """awaited sub-coroutines and functions (C01: "awaited sub-coroutines", "while loops with break/continue/return")
+    -> {tag: (funcs, body)}"""
+    m = lambda k: assign("next", "o", pint(k))
+    inc = [assign("value", "v", bin_("add", ref("v"), pint(1))), assign("next", "q", ref("v"))]
+    A, B, X, Y = ref("a"), ref("b"), ref("x"), ref("y")
+    wt = func("wait_hi", ["x"], [await_(X)], True)
+    wt2 = func("wait_both", ["x", "y"], [await_(X), m(6), await_(Y)], True)
+    nxt = func("nxt", ["x"], [ret_(bin_("add", X, pint(1)))])
+    scan = func("scan", ["x", "y"], [while_(X, inc + [if_(Y, [m(5), ret_()])]), m(6)], True)
+    pick = func("pick", ["x"], [await_(X), if_(B, [ret_(bin_("add", ref("v"), pint(1)))]), ret_(bin_("add", ref("v"), pint(3)))], True)
+    outer = func("outer", ["x", "y"], [ucall(wt, [X]), m(2), ucall(wt, [Y])], True)
+    loopret = func("loopret", ["x", "y"], [while_(X, [await_(Y), if_(A, [ret_(bin_("add", ref("v"), pint(2)))])] + inc), ret_(bin_("add", ref("v"), pint(1)))], True)
+    deep = func("deep", ["x", "y"], [while_(TRUE, [while_(X, inc + [if_(Y, [ret_()])]), m(4), if_(Y, [BREAK])]), m(5)], True)
+    setter = func("setter", ["t", "x"], [assign("next", "t", X), await_(TRUE)], True)
+    return {
+        "sub_first": ([wt], [ucall(wt, [A]), m(1)]),
+        "sub_after_stmt": ([wt], [m(1), ucall(wt, [B]), m(2)]),
+        "sub_twice": ([wt], [ucall(wt, [A]), m(1), ucall(wt, [B]), m(2), ucall(wt, [A]), m(3)]),
+        "sub_two_states": ([wt2], [m(1), ucall(wt2, [A, B]), m(2)]),
+        "sub_in_branch": ([wt], [if_(A, [ucall(wt, [B]), m(1)], [m(2)]), m(3), await_(TRUE)]),
+        "sub_in_loop": ([wt], [while_(TRUE, [ucall(wt, [A]), m(1), if_(B, [BREAK])] + inc), m(2)]),
+        "fn_value": ([nxt], [await_(A), ucall(nxt, [ref("v")], ret="r1"), assign("value", "v", ref("r1")), assign("next", "q", ref("v"))]),
+        "sub_while_return": ([scan], [m(1), ucall(scan, [A, B]), m(2), await_(TRUE)]),
+        "sub_while_return_first": ([scan], [ucall(scan, [A, B]), m(2)]),
+        "sub_return_value": ([pick], [ucall(pick, [A], ret="r1"), assign("next", "q", ref("r1")), m(1)]),
+        "sub_nested": ([wt, outer], [m(1), ucall(outer, [A, B]), m(3)]),
+        "sub_loop_return_value": ([loopret], [ucall(loopret, [A, B], ret="r1"), assign("next", "q", ref("r1")), m(1), await_(TRUE)]),
+        "sub_return_from_nested_loops": ([deep], [m(1), ucall(deep, [A, B]), m(2), await_(TRUE)]),
+        "sub_in_callers_loop": ([scan], [while_(TRUE, [ucall(scan, [A, B]), m(1), await_(B)])]),
+        "sub_assigns_parameter": ([setter], [ucall(setter, [ref("q"), ref("v")])] + inc[:1] + [m(1)]),
+    }
+
+
 def uses_of(body, acc=None):
     acc = set() if acc is None else acc
     for s in body:
@@ -239,6 +273,8 @@ def uses_of(body, acc=None):
             uses_of(s["default"], acc)
         elif s["k"] == "forchain":
             acc.add(s["t"]["obj"])
+        elif s["k"] == "ucall":
+            uses_of(s["body"], acc)
     return acc
 
 
@@ -249,6 +285,13 @@ def coro_designs(tier, rng, prefix, resets=(None,), with_extras=False, n_random=
         for rst in resets:
             ents.append(coro_entity(f"{prefix}_{k:04d}", body, uses_of(body), rst, family=f"coro_{tag}",
                                     extra=extras(rng) if with_extras else None, opts=ctx_opts(rng) if opts else None))
+            k += 1
+    for tag, (funcs, body) in coro_call_shapes().items():
+        for rst in resets:
+            e = coro_entity(f"{prefix}_{k:04d}", body, uses_of(body), rst, family=f"coro_{tag}",
+                            extra=extras(rng) if with_extras else None, opts=ctx_opts(rng) if opts else None)
+            e["funcs"] = funcs
+            ents.append(e)
             k += 1
     n = n_random if n_random is not None else (120 if tier == "quick" else 1500)
     for i in range(n):
@@ -391,6 +434,30 @@ def fixed_seq_shapes():
     }
 
 
+def seq_call_shapes():
+    """helper functions with returns in branches, functions with effects through parameters (C03) -> {tag: (funcs, body)}"""
+    A, B, D, S, V, X, Y = ref("a"), ref("b"), ref("d"), ref("s"), ref("v"), ref("x"), ref("y")
+    sel = func("sel", ["x", "y"], [if_(A, [ret_(bin_("add", X, pint(1)))]), if_(B, [ret_(bin_("xor", X, Y))]), ret_(bin_("and", X, Y))])
+    sel2 = func("sel2", ["x"], [if_(A, [ret_(bin_("add", X, pint(1)))], [if_(B, [ret_(bin_("sub", X, pint(1)))], [ret_(bin_("add", X, pint(2)))])])])
+    dec = func("dec", ["x"], [match_(X, [(pint(0), [ret_(bin_("add", X, pint(2)))]), (pint(1), [ret_(bin_("add", X, pint(1)))])],
+                                     default=[ret_(bin_("sub", X, pint(1)))])])
+    store = func("store", ["t", "x"], [assign("next", "t", X)])
+    store_if = func("store_if", ["t", "x", "g"], [if_(ref("g"), [ret_()]), assign("next", "t", X)])
+    twice = func("twice", ["x"], [ucall(sel2, [X], ret="h"), ret_(bin_("add", ref("h"), X))])
+    bump = func("bump", [], [assign("value", "v", bin_("add", V, pint(1)))])
+    return {
+        "fn_returns_in_branches": ([sel], [ucall(sel, [D, S], ret="r1"), assign("next", "q", ref("r1")), assign("next", "s", D)]),
+        "fn_returns_in_else_chain": ([sel2], [ucall(sel2, [D], ret="r1"), assign("next", "q", ref("r1"))]),
+        "fn_returns_in_match": ([dec], [ucall(dec, [D], ret="r1"), assign("next", "q", ref("r1"))]),
+        "fn_called_twice": ([sel2], [ucall(sel2, [D], ret="r1"), ucall(sel2, [S], ret="r2"), assign("next", "q", ref("r1")), assign("next", "s", ref("r2"))]),
+        "fn_assigns_parameter": ([store], [ucall(store, [S, D]), if_(A, [ucall(store, [ref("q"), S])])]),
+        "fn_early_return": ([store_if], [assign("next", "s", pint(1)), ucall(store_if, [S, D, A]), assign("next", "q", S)]),
+        "fn_nested": ([sel2, twice], [ucall(twice, [D], ret="r1"), assign("next", "q", ref("r1"))]),
+        "fn_variable_effect": ([bump], [ucall(bump, []), assign("next", "q", V), ucall(bump, []), assign("next", "s", V)]),
+        "fn_in_branch": ([sel2], [if_(idx(D, 0), [ucall(sel2, [S], ret="r1"), assign("next", "q", ref("r1"))], [assign("next", "q", D)]), assign("next", "s", D)]),
+    }
+
+
 def local_shapes():
     """signals constructed inside the context: immediate initialisation (reads in the same activation see the value, whole,
     sliced, indexed - constant and run-time), delayed_init, and chains of locals"""
@@ -416,6 +483,12 @@ def seq_designs(tier, rng, prefix, resets=(None,), with_extras=False, n_random=N
         for rst in resets:
             e = seq_entity(f"{prefix}_{k:04d}", body, rst, f"seq_{tag}", conc_body(rng))
             e["objs"] += [obj(n, "signal", U2, local=True) for n in locs]
+            ents.append(e)
+            k += 1
+    for tag, (funcs, body) in seq_call_shapes().items():
+        for rst in resets:
+            e = seq_entity(f"{prefix}_{k:04d}", body, rst, f"seq_{tag}", conc_body(rng))
+            e["funcs"] = funcs
             ents.append(e)
             k += 1
     for tag, body in fixed_seq_shapes().items():
